@@ -177,6 +177,37 @@ def gen(rng, tier):
         L.append("i.cg %s %d %s" % (num(tol), rng.choice([5, 50, 300]), " ".join(num(b[p]) for p in pts))); lcg = len(L)
         cases.append({"lines": L, "aux": {"ref": ref, "x": xs, "y": ys, "b": [b[p] for p in pts]}, "meta": {"kind": "lap", "lx": lx, "ly": ly, "lc": lc, "lcg": lcg,
                                             "tol": tol, "nd": nd, "per": per}, "nontrivial": True})
+    # (f) the divergence maintained inside a 2-D ABF bias, with and without a stop / resume in the middle
+    import os, cvbuild
+    from cvscen import inj_cv, cfg, pos, tf
+    work = os.path.join(cvbuild.CACHE, "c16-scratch"); os.makedirs(work, exist_ok=True)
+    for k in range(4 if tier == "quick" else 40):
+        nb = [rng.randint(3, 5), rng.randint(3, 5)]
+        wv = [0.5, 0.25]
+        lo = [-1.0, 0.0]
+        conf = inj_cv("x0", 0, lo[0], lo[0] + nb[0] * wv[0], wv[0]) + inj_cv("x1", 1, lo[1], lo[1] + nb[1] * wv[1], wv[1])
+        abf = "abf {\n name b\n colvars x0 x1\n fullSamples 2\n}\n"
+        same = k % 2 == 0
+        N = rng.randint(20, 50)
+        K = rng.randint(5, N - 5) if k % 4 < 3 else -1
+        head = ["m.new 2", "M.noclock", "m.opt tf_same %d" % int(same), cfg(conf), cfg(abf)]
+        L = list(head)
+        # a walk that visits a few bins before the stop and different ones after it
+        for s_ in range(N):
+            region = 0 if (K < 0 or s_ <= K) else 1
+            xs = [lo[0] + wv[0] * (rng.uniform(0, nb[0] / 2.0) if region == 0 else rng.uniform(nb[0] / 2.0, nb[0])),
+                  lo[1] + wv[1] * rng.uniform(0, nb[1])]
+            for i in range(2):
+                L.append(pos(i, 0.0, 0.0, xs[i])); L.append(tf(i, 0.0, 0.0, rng.uniform(-3, 3)))
+            L.append("m.step")
+            if s_ == K:
+                pfx = os.path.join(work, "a%d" % k)
+                L += ["m.save %s" % pfx] + head + ["m.load %s" % pfx]
+                for i in range(2):
+                    L.append(pos(i, 0.0, 0.0, xs[i])); L.append(tf(i, 0.0, 0.0, 0.0))
+                L.append("m.step")
+        L.append("a.dump b")
+        cases.append({"lines": L, "meta": {"kind": "abf2d", "dump": len(L), "nx": nb, "w": wv, "K": K, "same": same}, "nontrivial": True})
     # (e) full integration of a smooth surface at two resolutions
     m = 3 if tier == "quick" else 24
     for k in range(m):
@@ -312,6 +343,22 @@ def oracle(case, out):
             bn = math.sqrt(sum(v * v for v in m["b"]))
             if it[0] < itmax and bn > 1e-12 and res > m["tol"] * bn * 1.001 + 1e-9 * bn:
                 viol.append("the solver stopped after %d of %d iterations with residual %r > tolerance %r x |b| = %r" % (it[0], itmax, res, m["tol"], m["tol"] * bn))
+        return viol
+    if kind == "abf2d":
+        smp = vals(out, m["dump"], "samples"); grad = vals(out, m["dump"], "grad"); dv = vals(out, m["dump"], "pmfdiv")
+        if smp is None or grad is None or dv is None:
+            return ["the ABF bias reported no divergence"]
+        ref = Ref(m["nx"], m["w"], [False, False], 0, 0, False)
+        idx = 0
+        for ix in itertools.product(*[range(a) for a in m["nx"]]):
+            ref.set(ix, smp[idx], grad[2 * idx:2 * idx + 2]); idx += 1
+        pts = ref.points()
+        scale = max(1.0, max(abs(x) for x in dv))
+        for i, p in enumerate(pts):
+            e = ref.div(p)
+            if abs(dv[i] - e) > 1e-9 * scale:
+                return ["2-D ABF%s: the divergence kept by the bias at point %r is %r, recomputed from its final gradients it is %r"
+                        % (" (stopped and resumed at step %d)" % m["K"] if m["K"] >= 0 else "", p, dv[i], e)]
         return viol
     if kind == "poisson":
         errs = []
